@@ -101,37 +101,49 @@ theorem runTrace_closed {s s' : CS} {evs : List Ev} (hc : s.st = .closed)
 
 /-! ### the recovery run (C13) -/
 
-/-- the connect holding (or about to take) the lock is ready for attempt number `j + 1` -/
+/-- the connect holding (or about to take) the lock is ready for attempt number `j + 1`; the call was made by the
+application (`.connCall`) or by the reconnect task (`.reconnCall`) -/
 def Ready (s : CS) (j : Nat) : Prop :=
   s.st = .disconnected ∧ s.calls > 0 ∧
   ((s.connActive = true ∧ s.implPending = false ∧ s.lastFailed = true ∧ s.slept = true ∧ s.tryNo = j) ∨
-   (s.connActive = false ∧ s.prev = some .connCall ∧ j = 0))
+   (s.connActive = false ∧ (s.prev = some .connCall ∨ s.prev = some .reconnCall) ∧ j = 0))
+
+/-- what the retry loop leaves alone -/
+def Kept (s s' : CS) : Prop :=
+  s'.nextConn = s.nextConn ∧ s'.statusLog = s.statusLog ∧ s'.recv = s.recv ∧
+  s'.reconn = s.reconn ∧ s'.reconnCalled = s.reconnCalled ∧ s'.writerClosed = s.writerClosed
+
+theorem Kept.refl (s : CS) : Kept s s := ⟨rfl, rfl, rfl, rfl, rfl, rfl⟩
+
+theorem Kept.trans {a b c : CS} (h1 : Kept a b) (h2 : Kept b c) : Kept a c :=
+  ⟨h2.1.trans h1.1, h2.2.1.trans h1.2.1, h2.2.2.1.trans h1.2.2.1, h2.2.2.2.1.trans h1.2.2.2.1,
+   h2.2.2.2.2.1.trans h1.2.2.2.2.1, h2.2.2.2.2.2.trans h1.2.2.2.2.2⟩
 
 def retryBlock (i : Nat) : List Ev := [Ev.implStart, .implFail, .sleep (backoff (i + 1))]
 
 theorem ready_block {s : CS} {j : Nat} (h : Ready s j) :
-    ∃ s', runTrace s (retryBlock j) = some s' ∧ Ready s' (j + 1) ∧
-      s'.nextConn = s.nextConn ∧ s'.statusLog = s.statusLog ∧ s'.recv = s.recv := by
-  obtain ⟨h1, h2, ⟨h3, h4, h5, h6, h7⟩ | ⟨h3, h4, h5⟩⟩ := h
-  · simp [retryBlock, runTrace, step, stepCore, guard, Ready, *]
-  · simp [retryBlock, runTrace, step, stepCore, guard, Ready, *]
+    ∃ s', runTrace s (retryBlock j) = some s' ∧ Ready s' (j + 1) ∧ Kept s s' := by
+  obtain ⟨h1, h2, ⟨h3, h4, h5, h6, h7⟩ | ⟨h3, h4 | h4, h5⟩⟩ := h
+  · simp [retryBlock, runTrace, step, stepCore, guard, Ready, Kept, *]
+  · simp [retryBlock, runTrace, step, stepCore, guard, Ready, Kept, *]
+  · simp [retryBlock, runTrace, step, stepCore, guard, Ready, Kept, *]
 
 theorem ready_loop {s : CS} (k : Nat) (h : Ready s 0) :
-    ∃ s', runTrace s ((List.range k).flatMap retryBlock) = some s' ∧ Ready s' k ∧
-      s'.nextConn = s.nextConn ∧ s'.statusLog = s.statusLog ∧ s'.recv = s.recv := by
+    ∃ s', runTrace s ((List.range k).flatMap retryBlock) = some s' ∧ Ready s' k ∧ Kept s s' := by
   induction k with
-  | zero => exact ⟨s, by simp [runTrace], h, rfl, rfl, rfl⟩
+  | zero => exact ⟨s, by simp [runTrace], h, Kept.refl s⟩
   | succ k ih =>
-    obtain ⟨t, h1, h2, a1, a2, a3⟩ := ih
-    obtain ⟨t', h1', h2', b1, b2, b3⟩ := ready_block h2
-    refine ⟨t', ?_, h2', b1.trans a1, b2.trans a2, b3.trans a3⟩
+    obtain ⟨t, h1, h2, a⟩ := ih
+    obtain ⟨t', h1', h2', b⟩ := ready_block h2
+    refine ⟨t', ?_, h2', a.trans b⟩
     simp [List.range_succ, List.flatMap_append, runTrace_append, h1, h1']
 
 theorem ready_final {s : CS} {j : Nat} (h : Ready s j) (hr : s.recv = none) :
     ∃ s', runTrace s [.implStart, .implOk s.nextConn, .status .connected, .connReturn, .recvStart s.nextConn] = some s' ∧
       s'.st = .connected ∧ s'.recv = some s.nextConn ∧ s'.statusLog = s.statusLog ++ [.connected] ∧
       s'.conn = some s.nextConn := by
-  obtain ⟨h1, h2, ⟨h3, h4, h5, h6, h7⟩ | ⟨h3, h4, h5⟩⟩ := h
+  obtain ⟨h1, h2, ⟨h3, h4, h5, h6, h7⟩ | ⟨h3, h4 | h4, h5⟩⟩ := h
+  · simp [runTrace, step, stepCore, guard, *]
   · simp [runTrace, step, stepCore, guard, *]
   · simp [runTrace, step, stepCore, guard, *]
 
@@ -145,7 +157,7 @@ theorem recovers {s : CS} (k : Nat) (hst : s.st = .disconnected) (ha : s.connAct
       t.statusLog = s.statusLog ∧ t.recv = s.recv := by
     simp [step, stepCore, Ready, *]
   obtain ⟨t, h1, h2, a1, a2, a3⟩ := h0
-  obtain ⟨t', h1', h2', b1, b2, b3⟩ := ready_loop k h2
+  obtain ⟨t', h1', h2', b1, b2, b3, -⟩ := ready_loop k h2
   obtain ⟨u, hu, c1, c2, c3, c4⟩ := ready_final h2' (by rw [b3, a3, hr])
   refine ⟨u, ?_, c1, ?_, ?_, ?_⟩
   · rw [List.append_assoc, List.singleton_append, runTrace_cons]
@@ -155,6 +167,50 @@ theorem recovers {s : CS} (k : Nat) (hst : s.st = .disconnected) (ha : s.connAct
   · rw [c2, b1, a1]
   · rw [c3, b2, a2]
   · rw [c4, b1, a1]
+
+/-! ### recovery after a fault on an established link: the connect call is made by the reconnect task -/
+
+/-- the fault is seen, the link is shut, DISCONNECTED is reported, the receive task ends, the reconnect task starts, waits and
+calls connect(): the state is then ready for the first attempt -/
+theorem fault_prefix {s : CS} {c : Nat} (hst : s.st = .connected) (hc : s.conn = some c) (hr : s.recv = some c)
+    (ha : s.connActive = false) (hre : s.reconn = 0) :
+    ∃ t, runTrace s [.envEof c, .writerClose c, .status .disconnected, .recvExit c false, .reconnStart, .reconnSleep 500,
+        .reconnCall] = some t ∧ Ready t 0 ∧ t.nextConn = s.nextConn ∧ t.statusLog = s.statusLog ++ [.disconnected] ∧
+      t.recv = none ∧ t.reconn = 1 ∧ t.reconnCalled = true ∧ c ∈ t.writerClosed := by
+  simp [runTrace, step, stepCore, guard, Ready, *]
+
+/-- the accepted attempt when the connect call was made by the reconnect task: that task ends once the call has returned -/
+theorem ready_final_reconn {s : CS} {j : Nat} (h : Ready s j) (hr : s.recv = none) (hre : s.reconn = 1)
+    (hrc : s.reconnCalled = true) :
+    ∃ s', runTrace s [.implStart, .implOk s.nextConn, .status .connected, .connReturn, .reconnEnd,
+        .recvStart s.nextConn] = some s' ∧
+      s'.st = .connected ∧ s'.recv = some s.nextConn ∧ s'.statusLog = s.statusLog ++ [.connected] ∧
+      s'.conn = some s.nextConn ∧ s'.writerClosed = s.writerClosed ∧ s'.reconn = 0 := by
+  obtain ⟨h1, h2, ⟨h3, h4, h5, h6, h7⟩ | ⟨h3, h4 | h4, h5⟩⟩ := h
+  · simp [runTrace, step, stepCore, guard, *]
+  · simp [runTrace, step, stepCore, guard, *]
+  · simp [runTrace, step, stepCore, guard, *]
+
+theorem recovers_after_fault {s : CS} {c : Nat} (k : Nat) (hst : s.st = .connected) (hc : s.conn = some c)
+    (hr : s.recv = some c) (ha : s.connActive = false) (hre : s.reconn = 0) :
+    ∃ s', runTrace s ([.envEof c, .writerClose c, .status .disconnected, .recvExit c false, .reconnStart, .reconnSleep 500,
+          .reconnCall] ++ (List.range k).flatMap retryBlock ++
+        [.implStart, .implOk s.nextConn, .status .connected, .connReturn, .reconnEnd, .recvStart s.nextConn]) = some s' ∧
+      s'.st = .connected ∧ s'.recv = some s.nextConn ∧
+      s'.statusLog = s.statusLog ++ [.disconnected, .connected] ∧ s'.conn = some s.nextConn ∧ c ∈ s'.writerClosed ∧
+      s'.reconn = 0 := by
+  obtain ⟨t, h1, h2, a1, a2, a3, a4, a5, a6⟩ := fault_prefix hst hc hr ha hre
+  obtain ⟨t', h1', h2', b1, b2, b3, b4, b5, b6⟩ := ready_loop k h2
+  obtain ⟨u, hu, c1, c2, c3, c4, c5, c6⟩ :=
+    ready_final_reconn h2' (by rw [b3, a3]) (by rw [b4, a4]) (by rw [b5, a5])
+  refine ⟨u, ?_, c1, ?_, ?_, ?_, ?_, c6⟩
+  · rw [List.append_assoc, runTrace_append, h1, Option.bind_some, runTrace_append, h1', Option.bind_some,
+      ← b1.trans a1]
+    exact hu
+  · rw [c2, b1, a1]
+  · rw [c3, b2, a2, List.append_assoc]; rfl
+  · rw [c4, b1, a1]
+  · rw [c5, b6]; exact a6
 
 /-! ### the reconnect task (C13) -/
 
